@@ -4,6 +4,7 @@
 (* written by harness/slice_driver.py, whose pixel values encode where each *)
 (* pixel comes from:                                                        *)
 (*    value = 1 + column + ncol*(row + nrow*(slice + nslice*channel))       *)
+(* (0 in every pixel of a slice marked in `blank`);                          *)
 (* channel = position in the expected channel order (directories in         *)
 (* command-line order; R, G, B inside an RGB file).  Fields:                *)
 (*   code     <<l1, l2, l3>> one-letter strings                             *)
@@ -44,6 +45,7 @@ Shape(c) ==
   /\ c.code \in O!Codes
   /\ c.outsize = O!OutSize(c.code, c.insize)
   /\ Len(c.stored) = NVox(c)
+  /\ Len(c.blank) = c.insize[3]
 
 \* flat position (1-based) of output voxel p, channel k (1-based)
 Flat(c, p, k) == ((((k - 1) * c.outsize[3] + p[3]) * c.outsize[2] + p[2]) * c.outsize[1] + p[1]) + 1
@@ -56,6 +58,10 @@ Decode(c, v) ==
       ns == c.insize[3]
   IN <<w % nc, (w \div nc) % nr, (w \div (nc * nr)) % ns, w \div (nc * nr * ns)>>
 
+\* blank[s+1] = 1: input slice s is entirely black (pixel value 0) in every
+\* channel - empty slices are ordinary input and must be converted like any other
+Blank(c, src) == c.blank[src[3] + 1] = 1
+
 RunClause(c) == IF c.run.outcome # "ok" \/ c.run.exit # 0 THEN "oracle:ConversionRaised" ELSE "ok"
 UnwrittenClause(c) == IF c.missing = << >> THEN "ok" ELSE "oracle:Unwritten"
 
@@ -65,12 +71,14 @@ ProvenanceClause(c) ==
           LET v == c.stored[Flat(c, p, k)]
               d == Decode(c, v)
               s == O!SrcIndex(c.code, c.insize, p)
-          IN v >= 1 /\ d[1] = s[1] /\ d[2] = s[2] /\ d[3] = s[3]
+          IN IF Blank(c, s) THEN v = 0
+             ELSE v >= 1 /\ d[1] = s[1] /\ d[2] = s[2] /\ d[3] = s[3]
   THEN "ok" ELSE "oracle:VoxelProvenance"
 
 ChannelClause(c) ==
   IF \A p \in O!Box(c.outsize) : \A k \in 1..c.channels :
-        Decode(c, c.stored[Flat(c, p, k)])[4] = k - 1
+        \/ Blank(c, O!SrcIndex(c.code, c.insize, p))
+        \/ Decode(c, c.stored[Flat(c, p, k)])[4] = k - 1
   THEN "ok" ELSE "oracle:ChannelOrder"
 
 Clause(c) ==
